@@ -105,7 +105,15 @@ def compatible(f, c, depth=0):
     if f[0] in ("int", "char") and c[0] in ("int", "char"):
         return f[1] == c[1]
     if f[0] == "array" and c[0] == "array":
-        return f[2] == c[2] and compatible(f[1], c[1])
+        # a[2][3] in C and the 6 contiguous elements gfortran prints for a(3,2) are one layout
+        def flat(t):
+            n = 1
+            while t[0] == "array":
+                n *= int(t[2]) if str(t[2]).isdigit() else 0
+                t = t[1]
+            return t, n
+        (fb, fn), (cb, cn) = flat(f), flat(c)
+        return fn == cn and fn > 0 and compatible(fb, cb) or (f[2] == c[2] and compatible(f[1], c[1]))
     return False
 
 
@@ -131,7 +139,7 @@ def gfortran_view(path, cwd, incs=()):
         return None, None, se[:300]
     protos = {}
     structs = {}
-    text = so
+    text = re.sub(r"/\*.*?\*/", "", so, flags=re.S)  # gfortran annotates some members with a comment
     for m in re.finditer(r"typedef struct (\w+) \{(.*?)\} \w+;", text, re.S):
         fields = []
         for ln in m.group(2).split(";"):
@@ -543,6 +551,16 @@ def stmt_libs():
     nshdr = ("#include <string>\n#include <vector>\nint plain(int n);\nnamespace inner { const std::string getName(); void fill(std::vector<int> &v); int *mk(int n);\n"
              "namespace deep { std::vector<double> values(); } }\n")
     out.append(("helpers used only inside namespaces", "cxx", nsy, "nshelp.hpp", nshdr))
+    # members of an interoperable struct: every native kind, bool, char, fixed arrays (one and two extents), pointers, arrays of pointers
+    recd = "struct Rec { int n; bool on; char code; double *rows[3]; float w[2][3]; long big; char name[8]; short s; int *p; unsigned int u; long long ll; size_t z; double d; bool flags[2]; };"
+    for lang in ("c", "cxx"):
+        hname = "rec.h" if lang == "c" else "rec.hpp"
+        ry = {"library": "smem", "cxx_header": hname, "options": {"wrap_python": False, "wrap_lua": False},
+              "declarations": [{"decl": recd}, {"decl": "int use(Rec *r)"}, {"decl": "Rec make(int n)"}]}
+        if lang == "c":
+            ry["language"] = "c"
+        rhdr = "#include <stddef.h>\n" + ("#include <stdbool.h>\n" if lang == "c" else "") + recd + "\ntypedef struct Rec Rec;\nint use(Rec *r);\nRec make(int n);\n"
+        out.append(("struct member types (%s)" % lang, lang, ry, hname, rhdr))
     return out
 
 
